@@ -198,7 +198,6 @@ Arguments HPartition {V}.
 Arguments HConcat {V}.
 
 (* ---------- wire ---------- *)
-Definition to_Z' (x : sx) : Z := match x with I z => z | _ => 0%Z end.
 Definition all_objs (h : @heap Z) : sx := L (map (fun j => of_cd (rd h j)) (seq 0 (n_objs h))).
 Definition of_ids (r : option (list nat)) : sx :=
   match r with Some l => L [I 1%Z; of_nats l] | None => L [I 0%Z] end.
@@ -229,5 +228,34 @@ Fixpoint hsteps_wire (share : bool) (h : @heap Z) (ops : list sx) : list sx :=
 Definition wire_114 (x : sx) : sx :=
   match x with
   | L [sh; L ops] => L (hsteps_wire (to_bool sh) (empty_heap) ops)
+  | _ => sx_err
+  end.
+
+(* ---------- the single-container wire with the checked add: like wire_112, operations 2 (add; the event is a Python
+   integer, also negative) and 4 (add_unmatched) go through add_chk ---------- *)
+Definition stepy (c : cdZ) (op : sx) : option cdZ * sx :=
+  match op with
+  | L [I 2%Z; I e; v] =>
+      match add_chk Z.eqb c e (to_optZ v) with
+      | Some c' => (Some c', L [I 2%Z; of_cd c'; of_Zs (spec_add (expand zd c) (ev c) (Z.to_nat e) (to_optZ v))])
+      | None => (None, L [I (-1)%Z])
+      end
+  | L [I 4%Z; segs; d] =>
+      let c' := add_unmatched_chk Z.eqb c (to_nats segs) (to_nat d) in (Some c', L [I 4%Z; of_cd c'; of_Zs (expand zd c)])
+  | _ => stepx c op
+  end.
+Fixpoint stepsy (c : cdZ) (ops : list sx) : list sx :=
+  match ops with
+  | [] => []
+  | op :: t => match stepy c op with
+               | (Some c', o) => o :: stepsy c' t
+               | (None, o) => [o]
+               end
+  end.
+Definition wire_115 (x : sx) : sx :=
+  match x with
+  | L [vs; es; L ops] =>
+      let c := make Z.eqb (to_Zs vs) (to_nats es) in
+      L (of_cd c :: stepsy c ops)
   | _ => sx_err
   end.
